@@ -402,3 +402,16 @@ Qed.
 (* a box that is not clipped by anything keeps its whole area *)
 Lemma uncovered_nil p : uncovered Qops p [] = shoelace Qops p.
 Proof. reflexivity. Qed.
+
+(* the tie to the translated share normalisation (gen/ScalarOwnArea.v): same text, equal by computation *)
+From SimilariGen Require Import Scalar ScalarBox ScalarOwnArea.
+
+Lemma share_normalise_is_translation_lemma (u : Universal2DBox Qops) (own : Q) :
+  own_share_clamp Qops (own_share_raw Qops u own) = share_normalise Qops own (ubox_area Qops u).
+Proof. reflexivity. Qed.
+
+Lemma own_shares_ie_uses_translation (boxes : list qbox) :
+  own_shares_ie Qops boxes =
+  map (fun ib => share_normalise Qops (own_area_ie Qops boxes (fst ib) (snd ib)) (ubox_area Qops (to_ubox Qops (snd ib))))
+      (combine (seq 0 (length boxes)) boxes).
+Proof. reflexivity. Qed.
